@@ -163,6 +163,12 @@ def components(tier):
                 x = rng.randn(rows, 2, 12).astype(np.float32) * rng.uniform(0.2, 5.0, size=(rows, 1, 1)).astype(np.float32)
                 if rows >= 3:
                     x[1] = 0.0  # planted zero-signal member
+                if rows >= 2:
+                    # planted weak (amplitude ~1e-3) and, in larger batches, strong (~1e3) members: where a regularising epsilon sits must not
+                    # depend on whether a member is processed alone or in a batch
+                    x[0] = (x[0] / max(float(np.abs(x[0]).max()), 1e-9) * 1e-3).astype(np.float32)
+                if rows >= 5:
+                    x[4] = (x[4] * 1e3).astype(np.float32)
                 return x
             return dict(fn=lambda x: con(x), n_in=None, gen=gen, dtype="signal", constraint=True)
         return f
